@@ -65,6 +65,10 @@ def ill_typed():
         ("BVULT", "u", "v5"), ("BVULT", "x", "u"), ("BVSLE", "x", "u"), ("BVULE", "a", "u"), ("BVSLT", "st", "u"), ("Select", "x", "y"), ("Select", "m", "a"), ("Store", "m", "x", "a"), ("Store", "m", "a", "x"),
         ("ToReal", "a"), ("StrLength", "x"), ("StrConcat", "st", "x"),
         ("ForAll", ("list", "x"), "y"), ("Exists", ("list", "x"), ("Plus", "x", "y")),
+        # array values: index constants of the wrong sort, stored value of another sort than the default
+        ("Array", ("type", INT), ("Real", P(0)), ("dict", (("Real", P(Fraction(3, 2))), ("Real", P(Fraction(5, 2)))))),
+        ("Array", ("type", INT), ("Int", P(0)), ("dict", (("Int", P(1)), ("Real", P(Fraction(5, 2)))))),
+        ("Array", ("type", INT), ("Int", P(0)), ("dict", (("Int", P(1)), "a"))),
     ]
 
 
@@ -235,6 +239,14 @@ def _failure_job(idx):
         if outcomes[1][0] == "ret":
             return ("bad", "second|%s" % _show(t),
                     "%s is rejected the first time (%s) and returned the second time" % (_show(t), outcomes[0][1]))
+        # the rejection must not change what is rejected afterwards
+        for t2 in (("Plus", "x", "r"), ("BVAdd", "u", "v5"), ("Select", "m", "a")):
+            try:
+                w.app(t2[0], *[_build(w, env, x_) for x_ in t2[1:]])
+                return ("bad", "later|%s" % _show(t), "after %s was rejected (%s) the ill-typed application %s is accepted"
+                        % (_show(t), outcomes[0][1], _show(t2)))
+            except AbsRaise:
+                pass
         nid = w.mgr.attrs["_next_free_id"]
         n = _build(w, env, ("And", ("LT", "y", "x"), ("Not", "c")))
         return ("ok", _show(t), "rejected twice (%s); tables and id counter unchanged" % outcomes[0][1])
